@@ -558,6 +558,9 @@ def run(tier, seed=0):
     c07fx.check_fixed_extent(res, "w64", 2400)
     if tier == "thorough":
         c07fx.check_fixed_extent(res, "w32", 2400)
+    from . import sb
+    nob = sb.check_start_initialises(c07fx.LAST_PROG["w64"], res, "SD.g-initialiser-sets-what-steps-read")
+    res.floor("SD.g fields an initialiser must set", nob, 35)
     from . import c15
     c15.check_who_may_free(prog, res)
     for i in res.instances:
